@@ -165,7 +165,12 @@ class ArrayConstraintBuilder(ConstraintOverrideVisitor):
             if f.is_rand_sz:
                 size_bound = self.bound_m[f.size]
                 range_l = size_bound.domain.range_l
-                max_size = int(range_l[-1][1])
+                if len(range_l) == 0:
+                    # The constraints on the size contradict each other. 
+                    # Nothing to extend: the solve reports the failure
+                    max_size = len(f.field_l)
+                else:
+                    max_size = int(range_l[-1][1])
 
                 # Composite arrays have a maximum size of their
                 # current size, since the user must populate them
